@@ -820,8 +820,33 @@ func (fr *Frame) evalLoopClause(ld *loopData, cl *Clause, phiVals map[*ssa.Phi]V
 		}
 		args = append(args, x)
 	}
+	args = append(args, fr.rangeIdx(ld, phiVals))
 	r := vc.evalSpec(cf, args, fr.st, fr.old)
 	return r.T
+}
+
+// rangeIdx: the number of elements a range loop has completed at its head: the hidden counter
+// of "range slice" loops starts at -1 and is incremented before the body, that of "range int"
+// loops starts at 0.
+func (fr *Frame) rangeIdx(ld *loopData, phiVals map[*ssa.Phi]Val) Val {
+	for _, phi := range ld.phis {
+		v, ok := phiVals[phi]
+		if !ok {
+			if fv, ok2 := fr.vals[phi]; ok2 {
+				v, ok = fv, true
+			}
+		}
+		if !ok || bvWidth(v.T.Sort) != 64 {
+			continue
+		}
+		switch phi.Comment {
+		case "rangeindex":
+			return Val{T: app(v.T.Sort, "bvadd", v.T, bvLit(1, 64))}
+		case "rangeint.iter":
+			return v
+		}
+	}
+	return Val{T: fr.vc.freshConst("noidx", bvSort(64))}
 }
 
 // evalPointClause evaluates a clause over the loop's variables with their values at the current
@@ -847,6 +872,7 @@ func (fr *Frame) evalPointClause(ld *loopData, cl *Clause, at *ssa.BasicBlock) T
 		}
 		args = append(args, x)
 	}
+	args = append(args, fr.rangeIdx(ld, nil))
 	return vc.evalSpec(cf, args, fr.st, fr.old).T
 }
 
@@ -991,7 +1017,10 @@ func (fr *Frame) autoRangeInv(ld *loopData, hav map[*ssa.Phi]Val) {
 				bound := fr.term(cmp.Y)
 				i := hav[phi].T
 				w := bvWidth(i.Sort)
-				if isSigned(phi.Type()) {
+				if phi.Comment == "rangeindex" {
+					// the hidden counter of a range-over-slice loop runs from -1 to len-1 at the loop head
+					vc.assume(implies(fr.live, and(app(SBool, "bvsle", bvLit(0xffffffffffffffff, w), i), app(SBool, "bvslt", i, bound))))
+				} else if isSigned(phi.Type()) {
 					vc.assume(implies(fr.live, and(app(SBool, "bvsle", bvLit(0, w), i), app(SBool, "bvslt", i, bound))))
 				} else {
 					vc.assume(implies(fr.live, app(SBool, "bvult", i, bound)))
